@@ -8,6 +8,7 @@ from ..astutil import inside, norm_cmp
 from ..cfg import CFG
 from ..core import AnalysisError, const_value
 from ..defuse import DefUse, Terms, show, walk_term
+from ..defuse import key as tkey
 from ..flow import Flow
 from ..paths import path_variants
 
@@ -129,12 +130,12 @@ def _fallback(ctx, f):
                   "is made at the wrong threshold", node=fb)
         sc = bound.get("scores")
         ok_sc = sc is not None and sc[0] == "zipelem" and sc[1] == 1 and \
-            show(sc[2][0]) == "psms" or (sc is not None and "scores" in
-                                         show(sc, 200))
+            tkey(sc[2][0]) == "psms" or (sc is not None and "scores" in
+                                         tkey(sc, 200))
         tc = bound.get("target_column")
         fn = bound.get("file_name")
-        ok_cols = (tc is not None and show(tc).endswith(".target_column")
-                   and fn is not None and show(fn).endswith(".filename"))
+        ok_cols = (tc is not None and tkey(tc).endswith(".target_column")
+                   and fn is not None and tkey(fn).endswith(".filename"))
         ctx.check(ok_sc and ok_cols, "C07a-count-same-collection", f,
                   "each collection's scores are labelled against that "
                   "collection's own file and label column",
@@ -491,7 +492,7 @@ def _label_taint(ctx):
 def _targets_clean(prog, caller, t, node, depth):
     if any(x[0] == "call" and x[1] == CONV for x in walk_term(t)):
         return True, ""
-    if show(t) == "self.targets" and caller.cls is not None and \
+    if tkey(t) == "self.targets" and caller.cls is not None and \
             caller.cls.name in ("LinearPsmDataset", "PsmDataset"):
         return True, ""
     from ..tutil import strip_conv
@@ -513,7 +514,7 @@ def _targets_clean(prog, caller, t, node, depth):
                 return False, f"via {c2.qual}: {why}"
         return True, ""
     # boolean targets of datasets built by _create_psms (which converts)
-    txt = show(t, 300)
+    txt = tkey(t, 300)
     ds_targets = [x for x in walk_term(t) if x[0] == "attr"
                   and x[2] == "targets"]
     if ds_targets and all(
